@@ -34,8 +34,8 @@ EXCLUDED_ARG_CLASSES = [
     "add(<empty tree>) and add(<tree> to itself)",
     "typed node/tree as source for an untyped tree",
     "source tree whose class is not (a subclass of) the target tree's class",
-    "keep_children=True together with with_clones=True when members are nested, "
-    "share a parent, or un-nesting collides",
+    "keep_children=True together with with_clones=True when members are nested or "
+    "two members with children share a parent",
     "update_meta({})",
 ]
 
